@@ -124,6 +124,7 @@ class Exec:
         self.old = None
         self.spec_mode = False
         self.loop_exit = {}
+        self.vac_points = []     # (label, hyps): each must NOT be contradictory
         self.obl_seq = itertools.count(1)
         self.reached = set()
 
@@ -626,10 +627,15 @@ class Exec:
         k = z3.Int('k!%d' % next(self.counter))
         n, bind = self.iter_source(gen.iter, gen.target, k, st)
         st2 = st.fork()
+        st2.pc = st.pc           # facts about nested comprehensions are (quantified) global facts
         bind(st2)
         st2.guards = st.guards + [z3.And(0 <= k, k < n)]
-        save = self.obls
-        body = self.ev(node.elt, st2)
+        outer = list(getattr(self, 'bound', []))
+        self.bound = outer + [(k, z3.And(0 <= k, k < n))]
+        try:
+            body = self.ev(node.elt, st2)
+        finally:
+            self.bound = outer
         # identity map (e.g. copy.deepcopy(value) for value in xs) -> the source itself
         src = getattr(self, '_last_iter_seq', None)
         if src is not None and body.kind == src.kind[1] and isinstance(gen.target, ast.Name):
@@ -646,10 +652,20 @@ class Exec:
             body = self.lift(body, 'T3')
             ek = 'T3'
         s = self.th.seq(ek)
-        L = z3.Const('comp!%d' % next(self.counter), s.sort)
-        st.pc.append(s.len(L) == n)
-        st.pc.append(z3.ForAll([k], z3.Implies(z3.And(0 <= k, k < n),
-                                               s.idx(L, k) == body.t), patterns=[s.idx(L, k)]))
+        if outer:
+            # nested comprehension: the result is a function of the enclosing bound variables
+            vs = [v for v, _ in outer]
+            fL = z3.Function('comp!%d' % next(self.counter), *([v.sort() for v in vs] + [s.sort]))
+            L = fL(*vs)
+            rng = z3.And(*[c for _, c in outer])
+            st.pc.append(z3.ForAll(vs, z3.Implies(rng, s.len(L) == n), patterns=[L]))
+            st.pc.append(z3.ForAll(vs + [k], z3.Implies(z3.And(rng, 0 <= k, k < n), s.idx(L, k) == body.t),
+                                   patterns=[s.idx(L, k)]))
+        else:
+            L = z3.Const('comp!%d' % next(self.counter), s.sort)
+            st.pc.append(s.len(L) == n)
+            st.pc.append(z3.ForAll([k], z3.Implies(z3.And(0 <= k, k < n),
+                                                   s.idx(L, k) == body.t), patterns=[s.idx(L, k)]))
         return SVal(('seq', ek), L)
 
     def iter_source(self, it, target, k, st):
@@ -1493,6 +1509,8 @@ class Exec:
         if src is not None:
             body_st.pc.append(self.seqth(src.kind).snoc_hint(src.t, k0))
         self.add_hints(spec, body_st)
+        if not getattr(self, 'inline_of', None):
+            self.vac_points.append(('loop %d body' % ordn, body_st.hyps()))
         outs = []
         head_snapshot = body_st.fork()
         head_snapshot.heap = dict(body_st.heap)
@@ -1603,6 +1621,8 @@ class Exec:
         else:
             raise OutOfSubset('while loop #%d needs decreases(...)' % ordn)
         self.add_hints(spec, body_st)
+        if not getattr(self, 'inline_of', None):
+            self.vac_points.append(('loop %d body' % ordn, body_st.hyps()))
         outs = []
         head_snapshot = body_st.fork()
         head_snapshot.heap = dict(body_st.heap)
@@ -1692,6 +1712,7 @@ class Exec:
             self.assume(st, self.zbool(self.truth(self.ev(e, st))))
         self.spec_mode = False
         self.pre_hyps = list(st.pc)
+        self.vac_points.append(('entry', list(st.pc)))
         oldst = st.fork()
         oldst.heap = dict(st.heap)
         self.old = oldst
